@@ -9,7 +9,7 @@ from lib.coqterm import cN, cbool, cbytes, clist, copt, cpair
 
 ID = "C20"
 QUICK_N = 2000
-THOROUGH_N = 36000
+THOROUGH_N = 24000
 SHARD = 250
 COQ_PRELUDE = "From MV Require Import Model.ProxyAuth.\n"
 RULE = ("18% binascii.a2b_base64 / b2a_base64 inputs over a dictionary of alphabet runs, pads in every position, junk and "
@@ -277,17 +277,13 @@ def setup_impl():
     # the two finite facts about CPython str the model relies on, checked for every code point
     ws = {9, 10, 11, 12, 13, 28, 29, 30, 31, 32, 133, 160, 5760, 8232, 8233, 8239, 8287, 12288} | set(range(8192, 8203))
     subs = {"basic"[i:j] for i in range(5) for j in range(i + 1, 6)}
-    for c in range(0x110000):
-        ch = chr(c)
-        assert ch.isspace() == (c in ws), f"str.isspace differs from the model at U+{c:04X}"
-        assert (" " + ch + " ").split() == ([] if c in ws else [ch]), f"str.split differs at U+{c:04X}"
-        lo = ch.lower()
-        if 65 <= c <= 90:
-            assert lo == chr(c + 32)
-        elif c < 128:
-            assert lo == ch
-        else:
-            assert lo not in subs, f"non-ASCII U+{c:04X} lowers into the word basic"
+    assert {c for c in range(0x110000) if chr(c).isspace()} == ws, "str.isspace differs from the model"
+    solid = "".join(chr(c) for c in range(0x110000) if c not in ws)
+    assert solid.split() == [solid], "str.split splits at a character the model does not treat as whitespace"
+    for c in ws:
+        assert ("a" + chr(c) + "b").split() == ["a", "b"], f"str.split does not split at U+{c:04X}"
+    assert [c for c in range(128) if chr(c).lower() != (chr(c + 32) if 65 <= c <= 90 else chr(c))] == []
+    assert [c for c in range(128, 0x110000) if chr(c).lower() in subs] == [], "a non-ASCII character lowers into the word basic"
 
 
 def _validator(v):
